@@ -147,6 +147,11 @@ def _split_respecting_quotes(text: str, delimiter: str) -> list[str]:
         else:
             current.append(ch)
         i += 1
+    if in_quotes:
+        # A quote left open swallows every later delimiter, so text appended
+        # after it -- the element the nearest proxy adds -- would be merged into
+        # the client-supplied one and the "last" element would be attacker-chosen.
+        raise AuthFailure(AuthReason.INVALID_CREDENTIAL, f"Unterminated quote in {_XFCC_HEADER} header")
     parts.append("".join(current))
     return parts
 
